@@ -168,7 +168,13 @@ func drawFmtBody(t *rapid.T, noisy bool, feat map[string]bool, maxLines int) (ca
 		case 9:
 			if depth > 0 {
 				depth--
-				emit(ind()+"##!<", lead()+"##!<")
+				// text right after the end marker does not stop it from closing the block
+				tail := ""
+				if chance(t, 20, "endtail") {
+					tail = pick(t, []string{"-- end of block", "<", " end", "--"}, "endtailv")
+					feat["end-marker-with-text"] = true
+				}
+				emit(ind()+"##!<"+tail, lead()+"##!<"+tail)
 				continue
 			}
 			fallthrough
@@ -446,6 +452,14 @@ func evalC09(sc *Scenario, sim *Sim) ([]Violation, bool, string) {
 	f3 := format()
 	b3 := sb.MustRead(f.Path)
 	_ = c2
+	// a name that resolves to no file: --check has nothing to check, fails, and leaves the tree alone
+	{
+		before := sb.Snap()
+		r := sb.Run(Step{Argv: []string{"regex", "format", "--check", pick2(stepNo, "942199", "nosuchinclude")}, Cwd: "crs", Plan: plan()})
+		if d := before.Diff(sb.Snap(), true); len(d) > 0 {
+			add("check-never-writes", "missing-target", fmt.Sprintf("`format --check` of a name without a file (exit %d) changed the tree: %s", r.Exit, strings.Join(d, " ")), "")
+		}
+	}
 	if f2.Exit != 0 || f3.Exit != 0 {
 		add("idempotent", "exit", fmt.Sprintf("format succeeded once and then failed (exit %d, %d) on its own output", f2.Exit, f3.Exit), string(f2.Stderr))
 	}
@@ -615,7 +629,7 @@ func init() {
 	rule := "scenario = one assembly file (rule file or include file) in one of three modes: structured program (flags, prefix, suffix, comments, blanks, definitions, include / include-except with pairs, assemble / cmdline blocks to depth 3, ##!=> / ##!=< markers) rendered with surface noise (random leading blanks / tabs, extra blanks after markers and keywords, trailing blanks, CRLF, missing final newline, extra trailing blank lines, header present or not); token soup (lines of directive fragments, tabs, CRLF); boundary files (empty, white-space-only, header-only, header without blank line). "
 	register(&Property{
 		ID: "C09", Level: "exploration",
-		Rule: rule + "History: check, format, check, format, check, format over one disk, every step under its own seeded map-iteration schedule. Oracles: bytes after the 2nd and 3rd format equal those after the 1st; --check exit 0 implies format is a byte no-op, and (no flags line) format no-op implies --check exit 0; --check leaves the whole tree (content, mode, mtime) untouched and issues no write call; for structured and boundary inputs the result equals a reference rendering of the canonical layout. Non-trivial = format accepted the file; distinct = distinct file contents.",
+		Rule: rule + "History: check, format, check, format, check, format over one disk (the check switch spelled --check, -c, --check=true or -c=true; format sometimes spelled `format --check=false`, which must do what `format` does), every step under its own seeded map-iteration schedule. Oracles: bytes after the 2nd and 3rd format equal those after the 1st; --check exit 0 implies format is a byte no-op, and (no flags line) format no-op implies --check exit 0; --check leaves the whole tree (content, mode, mtime) untouched and issues no write call; for structured and boundary inputs the result equals a reference rendering of the canonical layout. Non-trivial = format accepted the file; distinct = distinct file contents.",
 		Gen:  genFmt, Eval: evalC09,
 		QuickChecks: 800, ThoroughChecks: 12000, Timeout: 20 * time.Second,
 		Assumptions: []string{
@@ -636,4 +650,11 @@ func init() {
 		},
 		RealStub: realStubDefault,
 	})
+}
+
+func pick2(n int, a, b string) string {
+	if n%2 == 0 {
+		return a
+	}
+	return b
 }
